@@ -430,7 +430,10 @@ class Interp:
                     raise Undecided("deref of non-reference value %r" % (v,))
             elif isinstance(e, dict):
                 if "f" in e:
-                    proj.append(("f", e["f"]))
+                    if proj and proj[-1] == ("wrap",) and e["f"] == 0:
+                        proj.pop()  # field 0 of a transparent wrapper the reference was transmuted to: the value itself
+                    else:
+                        proj.append(("f", e["f"]))
                 elif "d" in e:
                     proj.append(("d", e["d"]))
                 elif "i" in e:
@@ -477,6 +480,8 @@ class Interp:
 
     def read_path(self, st, base, proj, cur_ty_hint=None):
         v = self.read_base(st, base)
+        if ("wrap",) in proj:
+            proj = tuple(s_ for s_ in proj if s_ != ("wrap",))
         if not proj:
             return v
         # walk, materialising TOPs on the way (and storing them back so identity persists)
@@ -521,6 +526,8 @@ class Interp:
         return cur
 
     def write_path(self, st, base, proj, val):
+        if ("wrap",) in proj:
+            proj = tuple(s_ for s_ in proj if s_ != ("wrap",))
         if not proj:
             self.write_base(st, base, val)
             return
@@ -1026,6 +1033,18 @@ class Interp:
             if tk in ("int", "char", "bool") and fk in ("int", "char", "bool") and isinstance(a, (Conc, Sym, Expr)):
                 return a
             if tk in ("ref", "ptr") and fk in ("ref", "ptr"):
+                if isinstance(a, Ref):
+                    # &T -> &Wrapper<T> for a single-field (transparent) wrapper: remember the wrapping so that `.0` is the value
+                    tp, fp = self.p.types[to_tid].get("to"), self.p.types[from_tid].get("to")
+                    if tp is not None and fp is not None and tp != fp:
+                        tt = self.p.types[tp]
+                        if tt["k"] == "adt" and tt.get("adt_kind") == "struct" and len(tt["variants"][0]["fields"]) == 1 and tt["variants"][0]["fields"][0]["ty"] == fp:
+                            return Ref(a.base, a.proj + (("wrap",),))
+                        ft = self.p.types[fp]
+                        if ft["k"] == "adt" and ft.get("adt_kind") == "struct" and len(ft["variants"][0]["fields"]) == 1 and ft["variants"][0]["fields"][0]["ty"] == tp:
+                            if a.proj and a.proj[-1] == ("wrap",):
+                                return Ref(a.base, a.proj[:-1])
+                            return Ref(a.base, a.proj + (("f", 0),))
                 return a
             if tk in ("ref", "ptr") and fk == "adt" and isinstance(a, Agg) and len(a.fields) == 1 and isinstance(a.fields[0], Ref):
                 return a.fields[0]  # NonNull<T> -> *T
